@@ -66,6 +66,7 @@ def query (roots : List Path) (sfx src lsfx : List Str) (fs : Fs) (sysm : List S
         ("valid", Json.bool (validComps comps)),
         ("nons", Json.bool (NoNamespaceDirs roots fs comps)),
         ("noclash", Json.bool (NoModulePackageClash roots sfx fs comps)),
+        ("noext", Json.bool (NoExtensionNextToSource roots Generated.NONEXT_SUFFIXES Generated.EXTENSION_SUFFIXES fs comps)),
         ("regular", Json.bool (Regular roots sfx fs comps)),
         ("nosplit", Json.bool (NoSplitPackage roots sfx src lsfx fs comps))]
   | .ok "norm" =>
@@ -92,9 +93,8 @@ def query (roots : List Path) (sfx src lsfx : List Str) (fs : Fs) (sysm : List S
     -- assistant.list_packages: project.list_packages(project.norm_package(root, filename))
     match jstr q "root", (q.getObjVal? "file").bind getStrs with
     | .ok rt, .ok file =>
-      match normPackage fs file (strOf rt) with
-      | .error _ => Json.mkObj [("err", Json.str "ImportError")]
-      | .ok n => Json.mkObj [("ok", Json.str (strTo n)), ("model", strsTo (listPackages roots sfx fs sysm n))]
+      Json.mkObj [("norm", exceptTo (normPackage fs file (strOf rt))),
+                  ("model", strsTo (assistListPackages roots sfx fs sysm (strOf rt) file))]
     | _, _ => errJson "bad alist query"
   | .ok "list" =>
     match jstr q "root" with
